@@ -20,6 +20,7 @@ const char *HARNESS_ID = "C18";
 std::vector<ModeInfo> harness_modes()
 {
 	return {{"refcount", 0, "N pinned threads run generated balanced get/put programs on shared nodes (and work on disjoint trees); exact final counts, destroy-once; ThreadSanitizer reports when built with -fsanitize=thread"},
+	        {"refcount_asan", 0, "the same programs in an ASan+UBSan threaded build (use after free / double free on a miscounted node)"},
 	        {"refcount_tsan", 0, "the same programs in the -fsanitize=thread build: phase 1 canary race must be reported, phase 2 (get/put program) must be report-free"},
 	        {"seed", 0, "fresh process per trial: N threads held inside the seed initialisation with different candidate seeds; all hashes of a key must agree"}};
 }
@@ -127,6 +128,7 @@ struct Shared {
 static void shared_del(json_object *, void *ud) { ((Shared *)ud)->destroyed++; }
 
 struct Prog {
+	bool cold_start = false; // the workers acquire their own reference concurrently from a count of exactly 1
 	int nthreads;
 	int nnodes;
 	long rounds;            // per thread
@@ -138,6 +140,7 @@ struct ThreadArg {
 	const Prog *p;
 	std::vector<Shared *> *nodes;
 	Barrier *start;
+	Barrier *start2 = nullptr;
 	long put_freed = 0;      // how often put returned 1 in this thread
 	long mismatches = 0;     // disjoint-tree results that differ
 	volatile long *canary;
@@ -168,6 +171,13 @@ static void *worker(void *a)
 	char expect[64];
 	snprintf(expect, sizeof expect, "{\"t\":%d,\"a\":[1,2.5,\"x\"]}", t->idx);
 	t->start->wait();
+	if (p.cold_start)
+	{
+		// the main thread keeps the only reference alive; every worker takes its own at the same instant
+		for (size_t n = 0; n < nodes.size(); n++)
+			json_object_get(nodes[n]->node);
+		t->start2->wait();
+	}
 	for (long r = 0; r < p.rounds; r++)
 	{
 		uint8_t op = sc[(size_t)r % sc.size()];
@@ -286,6 +296,7 @@ static void run_refcount(Choices &c, Ctx &ctx)
 	p.rounds = (long)c.range(100000, 600000);
 #endif
 	p.disjoint_work = c.coin(50);
+	p.cold_start = c.coin(40);
 	for (int i = 0; i < p.nthreads; i++)
 	{
 		std::vector<uint8_t> sc;
@@ -324,12 +335,14 @@ static void run_refcount(Choices &c, Ctx &ctx)
 		s->node = json_object_new_object();
 		json_object_object_add(s->node, "n", json_object_new_int(i));
 		json_object_set_userdata(s->node, s, shared_del);
-		for (int t = 0; t < p.nthreads; t++)
-			json_object_get(s->node);
+		if (!p.cold_start)
+			for (int t = 0; t < p.nthreads; t++)
+				json_object_get(s->node);
 		nodes.push_back(s);
 	}
-	Barrier b;
+	Barrier b, b2;
 	b.n = p.nthreads + 1;
+	b2.n = p.nthreads + 1;
 	std::vector<ThreadArg> args((size_t)p.nthreads);
 	std::vector<pthread_t> th((size_t)p.nthreads);
 	g_reports_json = 0;
@@ -340,10 +353,13 @@ static void run_refcount(Choices &c, Ctx &ctx)
 		args[i].p = &p;
 		args[i].nodes = &nodes;
 		args[i].start = &b;
+		args[i].start2 = &b2;
 		pthread_create(&th[i], nullptr, worker, &args[i]);
 	}
 	// the main thread releases its own references concurrently with the workers
 	b.wait();
+	if (p.cold_start)
+		b2.wait(); // ... but only after every worker holds its own reference
 	long main_freed = 0;
 	bool main_last = c.coin(50);
 	if (!main_last)
@@ -370,7 +386,7 @@ static void run_refcount(Choices &c, Ctx &ctx)
 		mism += a.mismatches;
 	}
 	std::string desc = str(p.nthreads) + " threads x " + str(p.rounds) + " ops on " + str(p.nnodes) + " shared node(s)" + (p.disjoint_work ? " + disjoint-tree work" : "") +
-	                   (main_last ? ", main thread releases last" : ", main thread releases concurrently");
+	                   (main_last ? ", main thread releases last" : ", main thread releases concurrently") + (p.cold_start ? ", cold start from a count of 1" : "");
 	ctx.note(desc);
 	int destroyed_total = 0;
 	for (auto s : nodes)
@@ -390,6 +406,8 @@ static void run_refcount(Choices &c, Ctx &ctx)
 	for (auto s : nodes)
 		delete s;
 	ctx.label(p.disjoint_work ? "with_disjoint_work" : "refcount_only");
+	if (p.cold_start)
+		ctx.label("cold_start_from_count_1");
 	uint64_t h = hash_u64((uint64_t)p.nthreads * 1000003 + (uint64_t)p.rounds);
 	for (auto &sc : p.script)
 		h = fnv1a(sc.data(), sc.size(), h);
